@@ -220,8 +220,25 @@ fn history(family: &str, seed: u64, idx: usize, thorough: bool, out: &mut impl W
         _ => 3,
     } as u32;
     let v6 = rng.chance(1, 5);
-    let cfg_for = |family: &str| -> PeerCfg {
+    let mut cfg_rng = rng.fork();
+    let mut cfg_for = |family: &str| -> PeerCfg {
         let mut cfg = PeerCfg::default();
+        if family == "filter" {
+            // every subset of registered types, every on/off combination of the three switches, per peer
+            cfg.registered = [Ty::A, Ty::B, Ty::E, Ty::V, Ty::U].iter().cloned().filter(|_| cfg_rng.chance(1, 2)).collect();
+            cfg.registered.push(Ty::HMat);
+            cfg.registered.push(Ty::HMesh);
+            cfg.materials = cfg_rng.chance(1, 2);
+            cfg.meshes = cfg_rng.chance(1, 2);
+            cfg.audios = cfg_rng.chance(1, 2);
+        }
+        if family == "asset" {
+            cfg.registered.push(Ty::HMat);
+            cfg.registered.push(Ty::HMesh);
+            cfg.materials = true;
+            cfg.meshes = true;
+            cfg.audios = true;
+        }
         if family == "skin" {
             cfg.registered.push(Ty::Skinned);
         }
@@ -252,6 +269,7 @@ fn history(family: &str, seed: u64, idx: usize, thorough: bool, out: &mut impl W
             c.s.step(p);
         }
     }
+    c.s.describe_peers();
     c.s.start_host();
     c.lockstep(1);
     c.s.step(0);
@@ -310,8 +328,14 @@ fn history(family: &str, seed: u64, idx: usize, thorough: bool, out: &mut impl W
                 let ty = *c.rng.pick(&SIMPLE_TYS);
                 let nwrites = c.rng.range(1, 6);
                 c.s.trace.push(json!({"ev":"phase","writer":writer,"h":h,"ty":ty.name()}));
+                let mut last_v: Option<CVal> = None;
                 for _ in 0..nwrites {
-                    let v = small_val(&mut c.rng, ty);
+                    // sometimes the application re-writes the value it wrote last (touching it through DerefMut)
+                    let v = match (&last_v, c.rng.chance(1, 4)) {
+                        (Some(v), true) => v.clone(),
+                        _ => small_val(&mut c.rng, ty),
+                    };
+                    last_v = Some(v.clone());
                     c.s.write(writer, h, &v, &[]);
                     // unrelated traffic on other entities from other peers
                     if c.rng.chance(1, 4) {
@@ -371,6 +395,68 @@ fn history(family: &str, seed: u64, idx: usize, thorough: bool, out: &mut impl W
                     break;
                 }
             }
+        }
+        "filter" => {
+            const TYS: [Ty; 5] = [Ty::A, Ty::B, Ty::E, Ty::V, Ty::U];
+            const AK: [AKind; 4] = [AKind::Mesh, AKind::Image, AKind::Audio, AKind::Material];
+            for _ in 0..rounds {
+                for _ in 0..c.rng.range(1, 3) {
+                    let p = c.any_peer();
+                    match c.rng.below(8) {
+                        0 | 1 => {
+                            // marked and unmarked entities with any components (registered there or not)
+                            let h = c.fresh();
+                            let mark = c.rng.chance(2, 3);
+                            let mut comps: Vec<CVal> = vec![];
+                            for t in TYS {
+                                if c.rng.chance(1, 3) {
+                                    comps.push(small_val(&mut c.rng, t));
+                                }
+                            }
+                            c.s.spawn(p, h, mark, &comps, None);
+                            // exclusion added before the entity is processed
+                            if c.rng.chance(1, 3) {
+                                let t = *c.rng.pick(&TYS[..4]);
+                                c.s.exclude(p, h, t, true);
+                            }
+                            c.live.push(h);
+                        }
+                        2 | 3 => {
+                            if !c.live.is_empty() {
+                                let h = *c.rng.pick(&c.live.clone());
+                                let t = *c.rng.pick(&TYS);
+                                let v = small_val(&mut c.rng, t);
+                                c.s.write(p, h, &v, &[]);
+                            }
+                        }
+                        4 => {
+                            if !c.live.is_empty() {
+                                let h = *c.rng.pick(&c.live.clone());
+                                let t = *c.rng.pick(&TYS[..4]);
+                                let on = c.rng.chance(2, 3);
+                                c.s.exclude(p, h, t, on);
+                            }
+                        }
+                        _ => {
+                            let kind = *c.rng.pick(&AK);
+                            let uuid = if c.rng.chance(2, 3) { Some(uuid::Uuid::from_bytes(c.rng.bytes(16).try_into().unwrap())) } else { None };
+                            let n = c.rng.below(1000) as u64;
+                            c.s.asset_insert(p, kind, uuid, n);
+                        }
+                    }
+                }
+                c.random_steps();
+            }
+            let d = c.drain(60);
+            c.s.trace.push(json!({"ev":"drain","quiescent":d.0,"rounds":d.1}));
+            // a client that joins now receives the snapshot
+            let cfgj = cfg_for(family);
+            let id = c.s.add_client(cfgj, 2);
+            c.nclients += 1;
+            c.s.describe_peers();
+            c.s.connect(id);
+            let ok = c.wait_connected(id, 60);
+            c.s.trace.push(json!({"ev":"late_join","peer":id,"ok":ok}));
         }
         "fix" => {
             const KINDS: [Ty; 5] = [Ty::Transform, Ty::Visibility, Ty::PointLight, Ty::SpotLight, Ty::DirLight];
